@@ -274,6 +274,8 @@ def gen_cfg(rng, scope="mixed", huge=False):
     game = rng.choice(["NLHE", "PLO"])
     k = 2 if game == "NLHE" else 4
     n = rng.choice([2, 2, 3, 3, 4, 5, 6, 9]) if scope != "small" else rng.choice([2, 3])
+    if scope != "small" and rng.random() < 0.06:
+        n = rng.choice([10, 11, 11] if game == "PLO" else [10, 11, 11, 12, 15, 22])     # as many seats as the deck allows (board: 5 more)
     deck = list(CARDS)
     style = rng.randrange(4)
     if style == 0:   # tie-prone: few ranks
@@ -314,9 +316,13 @@ def gen_cfg(rng, scope="mixed", huge=False):
     else:
         stacks = [max(0, rng.choice(pools[0] + pools[1] + pools[2])) for _ in range(n)]
     board = []
-    if rng.random() < 0.12:
+    if rng.random() < 0.12 and len(deck) >= 10:
         kb = rng.choice([3, 4, 5])
         board = deck[:kb]; deck = deck[kb:]
+    if rng.random() < 0.05 and len(deck) > 8:
+        # a stub deck: exactly the cards the board still needs, or a card or two more (a rigged / replayed deal)
+        need = 5 - len(board)
+        deck = deck[:need + rng.choice([0, 0, 1, 2, 4])]
     raked = rng.random() < 0.4
     f = rng.choice([0.05, 0.1, 0.3, 0.5, 0.7, 1.0, 0.29]) if raked else 0.0
     cap = rng.choice([0, 1, 3, 10, 10**6]) if raked else 0
